@@ -9,6 +9,7 @@ import (
 	"net/http"
 	"net/url"
 	"sort"
+	"strconv"
 	"strings"
 )
 
@@ -113,9 +114,12 @@ type recWriter struct {
 	status   int // first WriteHeader (or 200 on first Write); 0 = none
 	body     []byte
 	calls    []wcall
-	onHeader func()        // seam hooks (concsim)
-	onWH     func(int)     // called before recording
-	snapWH   http.Header   // deep copy of the header map at first WriteHeader
+	onHeader func()      // seam hooks (concsim)
+	onWH     func(int)   // called before recording
+	snapWH   http.Header // deep copy of the header map at first WriteHeader (only if keepSnap)
+	snapFP   string      // fingerprint of the header map at first WriteHeader
+	snapped  bool
+	keepSnap bool
 }
 
 func newRec(preset []HV) *recWriter {
@@ -140,17 +144,25 @@ func (w *recWriter) WriteHeader(s int) {
 	w.calls = append(w.calls, wcall{Kind: "writeheader", Status: s})
 	if w.status == 0 {
 		w.status = s
-		w.snapWH = cloneHeader(w.h)
+		w.snap()
 	}
 }
 func (w *recWriter) Write(b []byte) (int, error) {
 	w.calls = append(w.calls, wcall{Kind: "write", N: len(b)})
 	if w.status == 0 {
 		w.status = 200
-		w.snapWH = cloneHeader(w.h)
+		w.snap()
 	}
 	w.body = append(w.body, b...)
 	return len(b), nil
+}
+
+func (w *recWriter) snap() {
+	w.snapped = true
+	w.snapFP = headerFP(w.h)
+	if w.keepSnap {
+		w.snapWH = cloneHeader(w.h)
+	}
 }
 
 func cloneHeader(h http.Header) http.Header {
@@ -165,18 +177,112 @@ func cloneHeader(h http.Header) http.Header {
 	return out
 }
 
-// headerFP renders a header map canonically (sorted keys; value order kept).
+// headerFP renders a header map canonically (sorted keys; value order kept)
+// in the format K=["v1" "v2"];...
 func headerFP(h http.Header) string {
 	keys := make([]string, 0, len(h))
 	for k := range h {
 		keys = append(keys, k)
 	}
 	sort.Strings(keys)
-	var sb strings.Builder
+	buf := make([]byte, 0, 256)
 	for _, k := range keys {
-		fmt.Fprintf(&sb, "%s=%q;", k, h[k])
+		buf = appendFP(buf, k, h[k])
 	}
-	return sb.String()
+	return string(buf)
+}
+
+func appendFP(buf []byte, k string, vs []string) []byte {
+	buf = append(buf, k...)
+	buf = append(buf, '=', '[')
+	for i, v := range vs {
+		if i > 0 {
+			buf = append(buf, ' ')
+		}
+		buf = appendQ(buf, v)
+	}
+	return append(buf, ']', ';')
+}
+
+// parseFP parses a header fingerprint produced by headerFP back into data.
+func parseFP(fp string) []HV {
+	var out []HV
+	for len(fp) > 0 {
+		i := strings.IndexByte(fp, '=')
+		if i < 0 || i+1 >= len(fp) || fp[i+1] != '[' {
+			panic("parseFP: malformed fingerprint " + fp)
+		}
+		hv := HV{K: fp[:i]}
+		fp = fp[i+2:]
+		for fp[0] != ']' {
+			if fp[0] == ' ' {
+				fp = fp[1:]
+				continue
+			}
+			q, err := strconv.QuotedPrefix(fp)
+			if err != nil {
+				panic("parseFP: " + err.Error())
+			}
+			v, _ := strconv.Unquote(q)
+			hv.V = append(hv.V, v)
+			fp = fp[len(q):]
+		}
+		fp = fp[2:] // "];"
+		out = append(out, hv)
+	}
+	return out
+}
+
+// appendQ is strconv.AppendQuote with a fast path for plain printable ASCII.
+func appendQ(buf []byte, v string) []byte {
+	for i := 0; i < len(v); i++ {
+		if c := v[i]; c < 0x20 || c > 0x7e || c == '"' || c == '\\' {
+			return strconv.AppendQuote(buf, v)
+		}
+	}
+	buf = append(buf, '"')
+	buf = append(buf, v...)
+	return append(buf, '"')
+}
+
+func fpOf(hvs []HV) string {
+	var buf []byte
+	for _, hv := range hvs {
+		buf = appendFP(buf, hv.K, hv.V)
+	}
+	return string(buf)
+}
+
+// fpFilter keeps the entries for which keep(name) is true.
+func fpFilter(fp string, keep func(k string) bool) string {
+	var out []HV
+	for _, hv := range parseFP(fp) {
+		if keep(hv.K) {
+			out = append(out, hv)
+		}
+	}
+	return fpOf(out)
+}
+
+func fpGet(fp, k string) ([]string, bool) {
+	for _, hv := range parseFP(fp) {
+		if hv.K == k {
+			return hv.V, true
+		}
+	}
+	return nil, false
+}
+
+func isACName(k string) bool { return strings.HasPrefix(k, "Access-Control-") }
+
+// hasACHeader reports whether the fingerprint has any Access-Control-* header NAME.
+func hasACHeader(fp string) bool {
+	for _, hv := range parseFP(fp) {
+		if isACName(hv.K) {
+			return true
+		}
+	}
+	return false
 }
 
 // Resp is the canonical observable outcome of one request.
@@ -215,11 +321,11 @@ func serveWith(hh http.Handler, q Req, preset []HV, invoked *int) (resp Resp) {
 	}()
 	*invoked = 0
 	hh.ServeHTTP(w, q.build())
-	hdr := w.snapWH
-	if hdr == nil {
-		hdr = w.h
+	fp := w.snapFP
+	if !w.snapped {
+		fp = headerFP(w.h)
 	}
-	return Resp{Status: w.status, Headers: headerFP(hdr), Body: string(w.body), Handler: *invoked}
+	return Resp{Status: w.status, Headers: fp, Body: string(w.body), Handler: *invoked}
 }
 
 // mwServer bundles a middleware-wrapped constant handler.
@@ -233,5 +339,5 @@ func newServer(wrap func(http.Handler) http.Handler) *mwServer {
 	s.h = wrap(constHandler{&s.invoked})
 	return s
 }
-func (s *mwServer) do(q Req) Resp                { return serveWith(s.h, q, nil, &s.invoked) }
+func (s *mwServer) do(q Req) Resp               { return serveWith(s.h, q, nil, &s.invoked) }
 func (s *mwServer) doPreset(q Req, p []HV) Resp { return serveWith(s.h, q, p, &s.invoked) }
